@@ -590,9 +590,12 @@ class SoftPiecewiseConstantCoalescentGrid(ConstantCoalescent):
 
         grid = self.grid.expand(batch_shape + torch.Size([-1]))
 
-        sampling_heights, sampling_counts = node_heights.flatten()[:taxa_count].unique(
-            return_counts=True
-        )
+        # sampling times are constants: avoid "NotImplementedError: the derivative for
+        # '_unique2' is not implemented." when the node heights require a gradient
+        with torch.no_grad():
+            sampling_heights, sampling_counts = node_heights.flatten()[
+                :taxa_count
+            ].unique(return_counts=True)
         sampling_heights = sampling_heights.expand(batch_shape + torch.Size([-1]))
         sampling_counts = sampling_counts.expand(batch_shape + torch.Size([-1]))
 
